@@ -16,7 +16,7 @@ import warnings
 
 import numpy as np
 
-from . import executor, seams
+from . import compare, executor, seams
 from .choices import Choices
 
 PROP = "C20"
@@ -59,6 +59,16 @@ def classes(tier):
     if tier == "thorough":
         out += [["real", f, "float64"] for f in ("nansum", "nanmin", "nanvar", "count")]
     return out
+
+
+def class_weights(tier):
+    cl = classes(tier)
+    n_real = sum(1 for c in cl if c[0] == "real")
+    if not n_real:
+        return [1.0] * len(cl)
+    real_share = 200 / n_runs(tier)  # real-scale arrays (2-8 M elements) cost ~0.1 s each
+    w = (1.0 - real_share) / (len(cl) - n_real)
+    return [real_share / n_real if c[0] == "real" else w for c in cl]
 
 
 def n_runs(tier):
@@ -212,7 +222,7 @@ def _outcome(fn):
     except BaseException as e:  # noqa: BLE001
         if isinstance(e, (KeyboardInterrupt, SystemExit, executor.ProtocolError)):
             raise
-        return ("raise", type(e).__name__, str(e)[:200])
+        return ("raise", type(e).__name__, compare.msg(e, 200))
 
 
 def _close(a, b, tol):
